@@ -210,11 +210,13 @@ func cmdSeatReplay(args []string) {
 	only := fs.Int("run", -1, "")
 	pin := fs.Bool("pin", false, "replace Join(-1) by a join of the seat the recorded run got (the code picks it with math/rand)")
 	repeat := fs.Int("repeat", 1, "replay each script this many times")
+	lateJoin := fs.Bool("latejoin", false, "after each script: for every empty seat strictly between a playable dealer and big blind, play Join, SitIn, Next x3 as a short run of its own (C08, second sentence)")
 	fs.Parse(args)
 	tw := newTraceWriter(*out)
 	o := &potsOut{w: tw}
 	var rs []*seatRun
 	var raws [][]byte
+	lateRuns := 0
 	for k := 0; k < *repeat; k++ {
 		raws = append(raws, readNDJSON(*in)...)
 	}
@@ -227,20 +229,74 @@ func cmdSeatReplay(args []string) {
 			continue
 		}
 		sr := newSeatRun(o, s.Run, s.Max)
+		var played []SOp // the ops with Join(-1) pinned to the seat it got: rebuilds the same manager
+		posAtNext, occAtNext := []int{-1, -1, -1}, []int{}
+		lastDealer := -1
+		crashed := false
 		for _, op := range s.Ops {
 			if *pin && op.Op == "Join" && op.Seat == -1 && op.Got > 0 {
 				op.Seat = op.Got - 1
 			}
 			op.Got = 0
-			if sr.do(op) == "PANIC" {
+			res := sr.do(op)
+			if res == "PANIC" {
+				crashed = true
 				break
+			}
+			last := sr.script.Ops[len(sr.script.Ops)-1]
+			if last.Op == "Join" && last.Seat == -1 && last.Got > 0 {
+				last.Seat = last.Got - 1
+			}
+			last.Got = 0
+			played = append(played, last)
+			if op.Op == "Next" {
+				lastDealer = -1
+				if d := sr.m.Dealer(); d != nil {
+					lastDealer = d.ID
+				}
+			}
+			if op.Op == "Next" && res == "" {
+				pj := projSeat(sr.m)
+				posAtNext = []int{pj["dealer"].(int), pj["sb"].(int), pj["bb"].(int)}
+				occAtNext = []int{}
+				for i := 0; i < s.Max; i++ {
+					if st := sr.m.GetSeat(i); st != nil && st.Player != nil {
+						occAtNext = append(occAtNext, i)
+					}
+				}
 			}
 		}
 		rs = append(rs, sr)
+		if *lateJoin && !crashed {
+			d, b := sr.m.Dealer(), sr.m.BigBlind()
+			playable := func(st *sm.Seat) bool { return st != nil && st.Player != nil && st.IsActive && !st.IsReserved }
+			if playable(d) && playable(b) && d.ID != b.ID {
+				for x := (d.ID + 1) % s.Max; x != b.ID; x = (x + 1) % s.Max {
+					if st := sr.m.GetSeat(x); st == nil || st.Player != nil {
+						continue
+					}
+					lateRuns++
+					mm := rebuild(s.Max, played)
+					if seatKey(mm, false) != seatKey(sr.m, false) {
+						continue // the rebuild did not give the same manager (cannot happen with pinned joins): no run rather than a wrong one
+					}
+					run := 60000000 + lateRuns
+					o.write(M{"kind": "reset", "reset": true, "run": run, "op": "state", "seat": -1, "p": -1, "got": -1, "res": "", "state": projSeat(mm),
+						"posAtNext": posAtNext, "occAtNext": occAtNext, "lastDealer": lastDealer})
+					for _, op := range []SOp{{Op: "Join", Seat: x, P: 99999}, {Op: "SitIn", Seat: x}, {Op: "Next", Seat: -1}, {Op: "Next", Seat: -1}, {Op: "Next", Seat: -1}} {
+						got, res := applySeat(mm, op)
+						o.write(M{"kind": "main", "reset": false, "run": run, "op": op.Op, "seat": op.Seat, "p": op.P, "got": got, "res": res, "state": projSeat(mm)})
+						if res == "PANIC" {
+							break
+						}
+					}
+				}
+			}
+		}
 	}
 	tw.close()
 	writeSeatScripts(*outScripts, rs)
-	b, _ := json.Marshal(M{"runs": len(rs), "lines": o.lines})
+	b, _ := json.Marshal(M{"runs": len(rs), "lines": o.lines, "lateJoinRuns": lateRuns})
 	fmt.Println(string(b))
 }
 
@@ -312,6 +368,76 @@ func rebuild(max int, path []SOp) *sm.SeatManager {
 	return m
 }
 
+// seatSig: the signature class of one call for the corpus - coarse enough to keep the corpus small, fine
+// enough to tell apart the situations the seat manager treats differently (how many can play, wait, are
+// held out; where the positions land relative to the old dealer; empty seats inside the blinds zone).
+func seatSig(pre M, op SOp, post M, res string) string {
+	n := pre["max"].(int)
+	cls := func(st M) int {
+		c := 0
+		if st["player"].(int) >= 0 {
+			c |= 4
+		}
+		if st["active"].(bool) {
+			c |= 2
+		}
+		if st["reserved"].(bool) {
+			c |= 1
+		}
+		return c
+	}
+	seats := func(pj M) []M { return pj["seat"].([]M) }
+	if op.Op != "Next" {
+		t := "out"
+		if op.Seat >= 0 && op.Seat < n {
+			t = fmt.Sprint(cls(seats(pre)[op.Seat]))
+			for _, k := range []string{"dealer", "sb", "bb"} {
+				if pre[k].(int) == op.Seat {
+					t += k[:1]
+				}
+			}
+		} else if op.Seat == -1 {
+			t = "any"
+		}
+		return fmt.Sprintf("%d|%s|%s|%s", n, op.Op, t, res)
+	}
+	cnt := func(pj M) (c [8]int) {
+		for _, st := range seats(pj) {
+			c[cls(st)]++
+		}
+		return
+	}
+	cap2 := func(x int) int {
+		if x > 2 {
+			return 2
+		}
+		return x
+	}
+	a, b := cnt(pre), cnt(post)
+	rel := func(x, y int) int {
+		if x < 0 || y < 0 {
+			return -1
+		}
+		return ((y-x)%n + n) % n
+	}
+	d0, d1, s1, b1 := pre["dealer"].(int), post["dealer"].(int), post["sb"].(int), post["bb"].(int)
+	// empty seats strictly between the new dealer and the new big blind, and how many of them are switched on
+	empt, emptOn := 0, 0
+	if d1 >= 0 && b1 >= 0 && d1 != b1 {
+		for x := (d1 + 1) % n; x != b1; x = (x + 1) % n {
+			st := seats(post)[x]
+			if st["player"].(int) < 0 {
+				empt++
+				if st["active"].(bool) {
+					emptOn++
+				}
+			}
+		}
+	}
+	return fmt.Sprintf("%d|Next|%s|pre:p%d,w%d,r%d,ei%d,ea%d|post:p%d,w%d|d%d,s%d,b%d|e%d,%d", n, res,
+		a[6], a[4], a[5]+a[7], cap2(a[0]+a[1]), cap2(a[2]+a[3]), b[6], b[4], rel(d0, d1), rel(d1, s1), rel(s1, b1), cap2(empt), cap2(emptOn))
+}
+
 func cmdSeatExplore(args []string) {
 	fs := flag.NewFlagSet("seat-explore", flag.ExitOnError)
 	out := fs.String("o", "seatexplore.ndjson", "")
@@ -325,16 +451,26 @@ func cmdSeatExplore(args []string) {
 	lateJoin := fs.Int("latejoin", 0, "k > 0: from every k-th state, for every empty seat strictly between a playable dealer and big blind, play Join, SitIn, Next, Next as a short run (C08, second sentence)")
 	frontier := fs.String("frontier", "bfs", "bfs | random (expand a random state of the frontier: reaches deep states of a graph too large to finish)")
 	seed := fs.Int64("seed", 1, "")
+	corpus := fs.String("corpus", "", "write one script (op path + the call) for the first transition of every signature class (see seatSig) to this file")
 	fs.Parse(args)
 	rr := rand.New(rand.NewSource(*seed))
 	tw := newTraceWriter(*out)
 	o := &potsOut{w: tw}
+	var cw *potsOut
+	sigs := map[string]bool{}
+	if *corpus != "" {
+		ctw := newTraceWriter(*corpus)
+		cw = &potsOut{w: ctw}
+		defer ctw.close()
+	}
 	type node struct {
 		path []SOp
 		snap *sm.SeatManagerState
 		// positions and occupied seats right after the last successful Next on the path (history of the late-joiner clause)
 		posAtNext []int
 		occAtNext []int
+		// the last dealer seat the manager showed on the path (C17: "the previous dealer" is a fact of history)
+		lastDealer int
 	}
 	mk := func(nd node) *sm.SeatManager {
 		if *fork == "snapshot" && nd.snap != nil {
@@ -343,7 +479,7 @@ func cmdSeatExplore(args []string) {
 		return rebuild(*max, nd.path)
 	}
 	seen := map[[20]byte]bool{}
-	queue := []node{{posAtNext: []int{-1, -1, -1}, occAtNext: []int{}}}
+	queue := []node{{posAtNext: []int{-1, -1, -1}, occAtNext: []int{}, lastDealer: -1}}
 	seen[seatKey(sm.NewSeatManager(*max), *anon)] = true
 	states, trans, panics, lateRuns := 0, 0, 0, 0
 	for len(queue) > 0 && states < *maxStates {
@@ -363,7 +499,7 @@ func cmdSeatExplore(args []string) {
 		preKey := seatKey(m0, false)
 		record := *sample <= 1 || rr.Intn(*sample) == 0
 		if record {
-			o.write(M{"kind": "reset", "reset": true, "run": states, "op": "state", "seat": -1, "p": -1, "got": -1, "res": "", "state": pre})
+			o.write(M{"kind": "reset", "reset": true, "run": states, "op": "state", "seat": -1, "p": -1, "got": -1, "res": "", "state": pre, "lastDealer": nd.lastDealer})
 		}
 		seated := map[int]bool{}
 		for i := 0; i < *max; i++ {
@@ -398,6 +534,16 @@ func cmdSeatExplore(args []string) {
 			if record && (*emit == "all" || op.Op == "Next" || (*emit == "changing" && seatKey(m, false) != preKey)) {
 				o.write(M{"kind": "probe", "reset": false, "run": states, "op": op.Op, "seat": op.Seat, "p": op.P, "got": got, "res": res, "state": projSeat(m)})
 			}
+			if cw != nil {
+				if sg := seatSig(pre, op, projSeat(m), res); !sigs[sg] {
+					sigs[sg] = true
+					b, _ := json.Marshal(SScript{Run: len(sigs), Max: *max, Ops: append(append([]SOp{}, nd.path...), op)})
+					var sc M
+					json.Unmarshal(b, &sc)
+					sc["sig"] = sg
+					cw.write(sc)
+				}
+			}
 			if res == "PANIC" {
 				panics++
 				continue
@@ -410,7 +556,13 @@ func cmdSeatExplore(args []string) {
 					// the random choice of Join(-1) is pinned for the rebuild: re-join the seat it got
 					np[len(np)-1] = SOp{Op: "Join", Seat: got, P: op.P}
 				}
-				child := node{path: np, snap: snapshot(m), posAtNext: nd.posAtNext, occAtNext: nd.occAtNext}
+				child := node{path: np, snap: snapshot(m), posAtNext: nd.posAtNext, occAtNext: nd.occAtNext, lastDealer: nd.lastDealer}
+				if op.Op == "Next" {
+					child.lastDealer = -1
+					if d := m.Dealer(); d != nil {
+						child.lastDealer = d.ID
+					}
+				}
 				if op.Op == "Next" && res == "" {
 					pj := projSeat(m)
 					child.posAtNext = []int{pj["dealer"].(int), pj["sb"].(int), pj["bb"].(int)}
@@ -436,7 +588,7 @@ func cmdSeatExplore(args []string) {
 					lateRuns++
 					mm := mk(nd)
 					o.write(M{"kind": "reset", "reset": true, "run": 50000000 + lateRuns, "op": "state", "seat": -1, "p": -1, "got": -1, "res": "", "state": projSeat(mm),
-						"posAtNext": nd.posAtNext, "occAtNext": nd.occAtNext})
+						"posAtNext": nd.posAtNext, "occAtNext": nd.occAtNext, "lastDealer": nd.lastDealer})
 					for _, op := range []SOp{{Op: "Join", Seat: x, P: 99}, {Op: "SitIn", Seat: x}, {Op: "Next", Seat: -1}, {Op: "Next", Seat: -1}, {Op: "Next", Seat: -1}} {
 						got, res := applySeat(mm, op)
 						o.write(M{"kind": "main", "reset": false, "run": 50000000 + lateRuns, "op": op.Op, "seat": op.Seat, "p": op.P, "got": got, "res": res, "state": projSeat(mm)})
